@@ -639,6 +639,14 @@ impl World {
 
             let len = self.facts.len();
             self.facts.merge(new_facts);
+
+            // tested before the fixpoint test: a world that is already over the fact
+            // budget (a call that failed with TooManyFacts and is retried) must not
+            // report success just because nothing new was derived
+            if self.facts.len() >= limits.max_facts as usize {
+                break Err(Execution::RunLimit(crate::error::RunLimit::TooManyFacts));
+            }
+
             if self.facts.len() == len {
                 break Ok(());
             }
@@ -648,10 +656,6 @@ impl World {
                 break Err(Execution::RunLimit(
                     crate::error::RunLimit::TooManyIterations,
                 ));
-            }
-
-            if self.facts.len() >= limits.max_facts as usize {
-                break Err(Execution::RunLimit(crate::error::RunLimit::TooManyFacts));
             }
 
             let now = Instant::now();
